@@ -424,7 +424,7 @@ def _machine_shard(arg):
         VALUES=st.one_of(st.sampled_from([0, 1, 1, 2, 3, 16, 17, 100]), st.integers(0, 40), st.sampled_from([1024, 1025, 2000])),
         DRAWS=st.one_of(st.just([ONE_MINUS]), st.just([ONE_MINUS]), DRAWS), SAVELOAD=True, MAXKEY=24,
     )
-    common.run_machine(M, common.derive_seed(seed, "C06", shard), n_examples, steps, holder, rec)
+    common.run_machine(M, common.derive_seed(seed, "C06", shard), n_examples, steps, holder, rec, retry=lambda c_: machines.replay_trace(c_, LowerBound))
     return rec
 
 
